@@ -947,6 +947,14 @@ func (c *Ctx) c07Mem(sm *storeModel) {
 		r.Floor("C07/ID/monotone", "insert sites of Store.boxes", nIns, 1)
 	}
 
+	c.fileIDUnique("C07/ID/file-unique")
+	// 'latest' on an empty mailbox, and any other last-element or fixed-position access in the stores
+	c.idxOnlyLenMinus = true
+	c.parserIndex("C07/PANIC/last-element/mem", "pkg/storage/mem", nil, "memory store", 1)
+	c.parserIndex("C07/PANIC/last-element/file", "pkg/storage/file", nil, "file store", 0)
+	c.idxOnlyLenMinus = false
+	r.Floor("C07/VISIT/stops", "visitor calls in the stores' VisitMailboxes", c.visitStops("C07/VISIT/stops"), 2)
+
 	// D5: deletes reachable from RemoveMessage are keyed by the id parameter
 	rm := p.Method("pkg/storage/mem", "Store", "RemoveMessage")
 	if rm == nil {
@@ -1271,4 +1279,131 @@ func (c *Ctx) c07Exhaustive() {
 		}
 	}
 	r.Floor("C07/FIND/exhaustive", "element-vs-id comparisons in the stores", n, 1)
+}
+
+// fileIDUnique: a file-store message id names the message's raw file, so two live messages
+// with one id share (and overwrite) one body. The id given to a new message therefore has a
+// component taken from a process-wide source that only advances — a receive from a package-level
+// channel fed by a counting generator, or an atomic add on a package-level counter — and not only
+// quantities that come back (the clock's second, the length of the mailbox).
+func (c *Ctx) fileIDUnique(rule string) {
+	p, r := c.P, c.R
+	r.Rule(rule, "file store: the id written into a new message is computed from a process-wide advancing source (receive from a package-level channel whose senders send a counter, or an atomic add on a package-level variable)")
+	idm := p.Method(fileRel, "Message", "ID")
+	var fID *types.Var
+	if idm != nil {
+		eng.EachInstr(idm, func(in ssa.Instruction) {
+			if ret, ok := in.(*ssa.Return); ok && len(ret.Results) == 1 {
+				if f := eng.LoadedField(ret.Results[0]); f != nil {
+					fID = f
+				}
+			}
+		})
+	}
+	if fID == nil {
+		r.Undecided(rule, "file.Message.id-field", "", "the field that (*file.Message).ID returns could not be found")
+		return
+	}
+	fns := pkgFuncs(p, fileRel)
+	globalOf := func(v ssa.Value) *ssa.Global {
+		if u, ok := v.(*ssa.UnOp); ok && u.Op == token.MUL {
+			if g, ok := u.X.(*ssa.Global); ok {
+				return g
+			}
+		}
+		if g, ok := v.(*ssa.Global); ok {
+			return g
+		}
+		return nil
+	}
+	var chans []*ssa.Global
+	isSource := func(v ssa.Value) bool {
+		switch x := v.(type) {
+		case *ssa.UnOp:
+			if x.Op == token.ARROW {
+				ch := x.X
+				if prm, isP := eng.StripConv(ch).(*ssa.Parameter); isP {
+					ch = eng.StripConv(p.Actual(prm))
+				}
+				if g := globalOf(ch); g != nil {
+					chans = append(chans, g)
+					return true
+				}
+			}
+		case *ssa.Call:
+			nm := eng.CalleeName(x.Common())
+			if strings.HasPrefix(nm, "sync/atomic.Add") || (strings.HasPrefix(nm, "(*sync/atomic.") && strings.HasSuffix(nm, ").Add")) {
+				for _, a := range x.Call.Args {
+					if globalOf(a) != nil {
+						return true
+					}
+					if fa, ok := a.(*ssa.FieldAddr); ok && globalOf(fa.X) != nil {
+						return true
+					}
+				}
+			}
+		}
+		return false
+	}
+	n := 0
+	for _, s := range eng.StoresToField(fns, fID) {
+		n++
+		cons := "id-writer@" + shortFn(s.Fn)
+		chans = nil
+		if !eng.BackSlice(s.Store.Val, isSource) {
+			r.Bad(rule, cons, p.InstrPos(s.Store), "the id of a new message is not computed from any process-wide advancing source: within one second (the clock is the only other ingredient) a mailbox-local quantity such as its length returns to an earlier value after a removal or a cap eviction, the id of a message that is still stored is issued again, and the new body is written over the old one's raw file")
+			continue
+		}
+		// the generator behind the channel counts
+		bad := ""
+		for _, g := range chans {
+			sends := 0
+			for _, fn := range p.Funcs {
+				if !eng.InModule(fn) {
+					continue
+				}
+				eng.EachInstr(fn, func(in ssa.Instruction) {
+					sd, ok := in.(*ssa.Send)
+					if !ok {
+						return
+					}
+					ch := eng.StripConv(sd.Chan)
+					if prm, isP := ch.(*ssa.Parameter); isP {
+						ch = nil
+						if vals, okA := p.ActualsOf(prm); okA {
+							for _, a := range vals {
+								if globalOf(eng.StripConv(a)) == g {
+									ch = a
+								}
+							}
+						}
+					}
+					if ch == nil || globalOf(eng.StripConv(ch)) != g {
+						return
+					}
+					sends++
+					counts := eng.BackSlice(sd.X, func(v ssa.Value) bool {
+						b, ok := v.(*ssa.BinOp)
+						if !ok || b.Op != token.ADD {
+							return false
+						}
+						k, ok := b.Y.(*ssa.Const)
+						return ok && k.Value != nil && k.Int64() == 1
+					})
+					if !counts {
+						bad = "the value sent on " + g.Name() + " at " + p.InstrPos(in) + " is not a counter (no `+ 1` in its computation)"
+					}
+				})
+			}
+			if sends == 0 {
+				bad = "nothing in the module sends on " + g.Name()
+			}
+		}
+		if bad != "" {
+			r.Bad(rule, cons, p.InstrPos(s.Store), "%s: ids are no longer distinct within a second", bad)
+		} else {
+			r.Ok(rule, cons, p.InstrPos(s.Store), "the id includes a value from a process-wide counting source")
+		}
+	}
+	r.Floor(rule, "writers of the file message id", n, 1)
 }
